@@ -43,7 +43,7 @@ def enum_cases(ctx):
     return out
 
 
-PAIRS_PER_DOC = 110         # thorough tier: class pairs tried on one document (stratified sample, see class_pairs)
+PAIRS_PER_DOC = 200         # thorough tier: class pairs tried on one document (stratified sample, see class_pairs)
 LEAF_CAP = {'quick': 10, 'thorough': 40}
 FAULT_CLASSES = ['bad_lhs', 'both_receivers', 'both_sources', 'builtin_override', 'cyclic_encapsulation',
                  'definition_through_connection', 'duplicate_component', 'duplicate_units', 'incompatible_units',
